@@ -49,6 +49,7 @@ def arg(id, short=None, long=None, aliases=(), action="", num=None, required=Fal
     }
     a["vp"].setdefault("pv_hide", [False] * len(a["vp"]["pvs"]))
     a["vp"].setdefault("pv_help", [[] for _ in a["vp"]["pvs"]])
+    a["vp"].setdefault("pv_aliases", [[] for _ in a["vp"]["pvs"]])
     return a
 
 
